@@ -93,7 +93,7 @@ if any(d is None for _, d, _ in results):
 ck.log("harness runs done")
 
 # merge the outputs (file / diag indices are per job)
-files, diags, fixes, behave, stats, notes = [], [], [], [], {}, []
+files, diags, fixes, behave, stats, notes, roundtrip = [], [], [], [], {}, [], []
 for name, data, _ in results:
     fbase, dbase = len(files), len(diags)
     for f in data.get("Files") or []:
@@ -108,6 +108,7 @@ for name, data, _ in results:
         f["Diag"] += dbase
         fixes.append(f)
     behave += data.get("Behave") or []
+    roundtrip += data.get("RoundTrip") or []
     for k, v in (data.get("Stats") or {}).items():
         stats[k] = stats.get(k, 0) + v
     notes += data.get("Notes") or []
@@ -342,6 +343,13 @@ for b in behave:
 if stats.get("behave_generator_broken"):
     ck.violation("behave-generator", "generated behaviour module does not build: %s" % notes[:2], {"notes": notes}, no_input=True)
 
+# ---------------------------------------------------------------- 5b. helpers the fixes re-render operands with
+for r in roundtrip:
+    ck.violation("helper-roundtrip:CopyExpr:%s:%s" % (r["Kind"].replace("*ast.", ""), r["What"]),
+                 "astutil.CopyExpr does not reproduce %s %r (%s:%d): the copy renders as %r (%s); every fix that renders a copied operand (QF1001 '& simplify', QF1005) emits this text" % (
+                     r["Kind"], r["Expr"][:160], short(r["File"]), r["Line"], r["Copy"][:160], r["What"]),
+                 {"roundtrip": r})
+
 # ---------------------------------------------------------------- 6. broken obligations / model mismatch without violation
 if model_mismatch and not ck.violations:
     kind, rec, kinds = model_mismatch[0]
@@ -366,7 +374,7 @@ n_dcases = sum(len(v) for v in dcases.values())
 n_fcases = sum(len(v) for v in fcases.values())
 ck.assume += ["Go toolchain as oracle: go/parser decides 'parses', go/types (imports adjusted: unused dropped, known packages added) decides 'type-checks', the compiled program decides behaviour",
               "positions remapped by //line directives are exempt (files containing such directives are not position-checked)",
-              "behavioural clause: generated instances of the trigger shapes of S1xxx/QF1xxx checks (QF1009, QF1010 change behaviour by intent and are exempt) on a fixed grid of 7 argument tuples incl. NaN, +Inf and a panicking operand"]
+              "behavioural clause: generated instances of the trigger shapes of S1xxx/QF1xxx checks (QF1009, QF1010 change behaviour by intent and are exempt) on a fixed grid of 8 argument tuples incl. NaN, +Inf, -Inf and a panicking operand; operands include defined numeric types (Celsius float64, F32 float32, ID int, an alias) and variadic spread calls"]
 ck.trusted.append("harness /verif/harness/cmd/hc16 (corpus assembly, variants, import adjuster, instance generator); its own edit applier is compared with the model applier inside coqc")
 samples = []
 for f in fixes[:: max(1, len(fixes) // 3)][:3]:
@@ -374,13 +382,13 @@ for f in fixes[:: max(1, len(fixes) // 3)][:3]:
                     "edits": [(e["Start"]["Off"], e["End"]["Off"], bytes.fromhex(e["NewHex"]).decode("utf8", "replace")[:60]) for e in f["Edits"]],
                     "parse": f["ParseOK"], "typecheck": f["TypeOK"]})
 ck.finish({
-    "evaluations": n_dcases + n_fcases + n_parse + n_type + stats.get("behave_executions", 0),
+    "evaluations": n_dcases + n_fcases + n_parse + n_type + stats.get("behave_executions", 0) + stats.get("roundtrip_exprs", 0),
     "distinct_nontrivial": nontriv,
-    "rule": "evaluations = positions validated in Coq + fixes applied by the model in Coq + parse verdicts + type-check verdicts + program executions of the behavioural oracle; "
+    "rule": "evaluations = positions validated in Coq + fixes applied by the model in Coq + parse verdicts + type-check verdicts + program executions of the behavioural oracle + CopyExpr round trips (Render(CopyExpr(e)) = Render(e) and astutil.Equal) over every expression of the corpus files; "
             "non-trivial = distinct (check, variant, file, effective change) of fixes whose application changes the file",
     "samples": samples,
     "diagnostics_position_checked": n_dcases, "fixes_model_applied": n_fcases, "fixes_parsed": n_parse, "fixes_typechecked": n_type,
     "typecheck_skipped": n_skip, "exempt_line_directive": n_exempt, "related_positions_in_other_packages": n_related_external, "checks_offering_fixes_seen": checks_with_fix,
-    "behaviour_fix_runs_equal": n_beh_equal, "behaviour_fix_runs": len(behave), "files": len(files),
+    "copyexpr_roundtrips": stats.get("roundtrip_exprs", 0), "behaviour_fix_runs_equal": n_beh_equal, "behaviour_fix_runs": len(behave), "files": len(files),
     "harness_stats": stats, "notes": notes[:10],
 })
